@@ -17,7 +17,7 @@ def pOp (s : String) : Option SelOp :=
 
 def pReq (s : Sexp) : Option Req :=
   match s with
-  | .list (.atom k :: .atom op :: vs) => do some ⟨k, ← pOp op, ← vs.mapM (·.atom?)⟩
+  | .list (.atom k :: .atom op :: vs) => do some ⟨k, ← pOp op, ← vs.mapM fun v => v.atom?.map fun a => if a == "~" then "" else a⟩
   | _ => none
 
 /-- `nil` or `(sel (ml …) (me …))` -/
